@@ -115,7 +115,7 @@ pub fn run_check(id: &str, tier: Tier) -> i32 {
             }
         }
         "C13" => {
-            ctx.rule("same histories with every message type 0..255/absent and server-id kinds; oracle: frame condition on the lease table + header echo; non-trivial = an unanswered message arriving while the sender already has a row");
+            ctx.rule("same histories with every message type 0..255/absent and server-id kinds (ours, another of ours, foreign, 0.0.0.0, malformed, absent); oracle: frame condition on the lease table + header echo; non-trivial = an unanswered message arriving while the sender already has a row");
             props_dhcp::run_hist_func(&ctx, id);
             if ctx.violations.lock().unwrap().is_empty() {
                 ctx.rule("policy-options: generated configurations (policy trees whose apply-* options include server-id as an address or null) x parameter request lists (any codes, incl. 54) through the real loader; DISCOVER then REQUEST through handle_pkt: both replies carry a server identifier naming this server and the right message type, echo xid / hardware address (5, 6, 8 or 16 octets, with type-1 and opaque client identifiers) / relay address / flags, and change no row but the one they assign; a client for which the documented-set model of C02 finds no pool gets no reply; non-trivial = an applied policy names server-id and the client asks for it");
@@ -156,7 +156,7 @@ pub fn run_check(id: &str, tier: Tier) -> i32 {
             }
         }
         "C14" => {
-            ctx.rule("structured: first two enumerated sweeps (names of 120..127 labels whose every suffix occurs earlier and whose longest is used once more: pointer chains of up to 127 hops; and a name first written at every offset 0x3fe8..0x4003, as owner and inside rdata, then reused whole, extended and by each suffix); then generated messages (1..2000 records, names sharing suffixes at every depth incl. ladders in which the k-th name extends the (k-1)-th by one label up to 126 levels (pointer chains as long as the name), all rdata kinds, EDNS options) -> erbium DNSPkt -> serialise -> crate parser (equality) and independent RFC 1035 decoder (field-by-field at RFC bit positions, pointer audit); bytes: harness-encoded messages under three compression modes with 0..2 byte edits, accepted inputs re-encoded and compared; non-trivial = pointer inside rdata, or > 16 KiB, or EDNS options / accepted multi-record input");
+            ctx.rule("structured: first two enumerated sweeps (names of 120..127 labels whose every suffix occurs earlier and whose longest is used once more: pointer chains of up to 127 hops; messages of 1000..2000 records with 33..61-label owners sharing their suffix, i.e. more than 65535 labels in all; and a name first written at every offset 0x3fe8..0x4003, as owner and inside rdata, then reused whole, extended and by each suffix); then generated messages (1..2000 records, names sharing suffixes at every depth incl. ladders in which the k-th name extends the (k-1)-th by one label up to 126 levels (pointer chains as long as the name), all rdata kinds, EDNS options) -> erbium DNSPkt -> serialise -> crate parser (equality) and independent RFC 1035 decoder (field-by-field at RFC bit positions, pointer audit); bytes: harness-encoded messages under three compression modes with 0..2 byte edits, accepted inputs re-encoded and compared; non-trivial = pointer inside rdata, or > 16 KiB, or EDNS options / accepted multi-record input");
             props_codec::run_c14_func(&ctx);
             fuzzdrv::run_for(&ctx, "C14");
         }
@@ -169,7 +169,7 @@ pub fn run_check(id: &str, tier: Tier) -> i32 {
             }
         }
         "C07" => {
-            ctx.rule("concurrent: (1) every listener family (127.0.0.1, 0.0.0.0, ::1, ::) x UDP to several local destination addresses / TCP in one write / TCP with the length prefix split over segments; (2) enumerated drop patterns over the upstream transmissions (quick: all with <= 2 losses + all lost; thorough: all 32), run concurrently; (3) generated sets of up to 48 (thorough 256) queries in flight on a fresh server each, per-question upstream script: delay 0..1500 ms (arbitrary reordering), 0..2 duplicates, wrong id first (forces the TCP retry), TC (forces TCP), losses; oracle: exactly one response per query within the server's own back-off bound (late duplicates collected for 1.5 s), carrying its own question and own answer, SERVFAIL iff the upstream never answered, <= 5 transmissions, response source == query destination, complete TCP frames, no task panic; non-trivial = a query whose upstream exchange was disturbed or whose TCP request came in several segments; (late reply) one TCP-path query whose upstream reply comes 11.5 s late (SERVFAIL or the answer), then thirteen more TCP-path queries, each of which must get its own answer; a SERVFAIL for a query the healthy upstream was never asked is a violation of its own");
+            ctx.rule("concurrent: (1) every listener family (127.0.0.1, 0.0.0.0, ::1, ::) x UDP to several local destination addresses / TCP in one write / TCP with the length prefix split over segments; (2) enumerated drop patterns over the upstream transmissions (quick: all with <= 2 losses + all lost; thorough: all 32), run concurrently; (3) generated sets of up to 48 (thorough 256) queries in flight on a fresh server each, per-question upstream script: delay 0..1500 ms (arbitrary reordering), 0..2 duplicates, wrong id first (forces the TCP retry), TC (forces TCP), losses; oracle: exactly one response per query within the server's own back-off bound (late duplicates collected for 1.5 s), carrying its own question and own answer, SERVFAIL iff the upstream never answered, <= 5 transmissions, response source == query destination, complete TCP frames, no task panic; non-trivial = a query whose upstream exchange was disturbed or whose TCP request came in several segments; (after a slow answer) the upstream answers one query 3 s after each transmission, then queries whose first one or two transmissions are lost and a TCP query must still be answered; (late reply) one TCP-path query whose upstream reply comes 11.5 s late (SERVFAIL or the answer), then thirteen more TCP-path queries, each of which must get its own answer; a SERVFAIL for a query the healthy upstream was never asked is a violation of its own");
             ctx.rule("empty-ahead: one or three empty UDP datagrams and then a query, back to back from one socket to a fresh server (every listener family), then silence until the answer comes or 12 s pass; four rounds per server; every query must get its own answer");
             ctx.rule("slow-writer: a TCP client writes the first 0/1/2/3/20 octets of its framed query and pauses; three TCP clients on their own connections and a UDP client then send complete queries and must each get their own answer while the first is still pending; it completes only then (or after 10 s) and must get its own answer too");
             ctx.assume("tokio's task interleaving inside the server is exercised by real concurrency and repetition, not enumerated");
@@ -237,7 +237,7 @@ pub fn run_check(id: &str, tier: Tier) -> i32 {
             }
         }
         "C17" => {
-            ctx.rule("build: generated interface sections (every field absent/null/value; lifetimes {0,1,8,600,1800,9000,9001,65535,65536,4294967,4294968,2^31,2^32-1,2^32,random} written as integers, '<n>s', mixed units or digit strings; max-router-advertisement-interval set on a third of the interfaces; 0..6 prefixes of any length with and without host bits, addresses from the documentation range, random, and one of each special-purpose class (unspecified, loopback, link-local, site-local, ULA, multicast, v4-mapped, 6to4, Teredo); RDNSS 0..8 incl. $self6; DNSSL lists of 0..5 (1 in 25: 7..10 names of ~250 octets, i.e. more than one option can hold) domains of 1..8 labels of 1..63 octets, plus labels of 64..400 octets and names above 255 octets as unrepresentable values; PREF64 lengths {32,40,48,56,64,96}; URLs 0..240 octets) plus top-level defaults, rendered to YAML, loaded through the real loader, built by the pure builder, serialised, and decoded by a decoder written from RFC 4861/8106/8781/8910; oracle: decoded == expected(config), reserved fields zero, unrepresentable values rejected or clamped; non-trivial = >= 3 option kinds in the message or an unrepresentable value");
+            ctx.rule("build: generated interface sections (every field absent/null/value; lifetimes {0,1,8,600,1800,9000,9001,65535,65536,4294967,4294968,2^31,2^32-1,2^32,random} written as integers, '<n>s', mixed units or digit strings; max-router-advertisement-interval set on a third of the interfaces; 0..6 prefixes of any length with and without host bits, addresses from the documentation range, random, and one of each special-purpose class (unspecified, loopback, link-local, site-local, ULA, multicast, v4-mapped, 6to4, Teredo); RDNSS 0..8 incl. $self6 and the interface's own address written out; DNSSL lists of 0..5 (1 in 25: 7..10 names of ~250 octets, i.e. more than one option can hold) domains of 1..8 labels of 1..63 octets, plus labels of 64..400 octets and names above 255 octets as unrepresentable values; PREF64 lengths {32,40,48,56,64,96}; URLs 0..240 octets) plus top-level defaults, rendered to YAML, loaded through the real loader, built by the pure builder, serialised, and decoded by a decoder written from RFC 4861/8106/8781/8910; oracle: decoded == expected(config), reserved fields zero, unrepresentable values rejected or clamped; non-trivial = >= 3 option kinds in the message or an unrepresentable value");
             ctx.assume("the mtu / lifetime tri-state resolution against interface and routing table lives in the impure wrapper and is decided by the wire tier; the hook takes the resolved values as parameters");
             props_ra::run_c17_func(&ctx);
             if wire_ok && ctx.violations.lock().unwrap().is_empty() {
@@ -256,7 +256,7 @@ pub fn run_check(id: &str, tier: Tier) -> i32 {
             }
         }
         "C06" => {
-            ctx.rule("cache-model: generated query sequences (keys with near misses: label/type/DO/CD/case/printed-alike framing (a dot inside a label against a label boundary, an octet against its backslash-decimal spelling); lookups are unconstrained while another spelling of the name in letter case is resolved; replies with 0..12 records (address records, SOA in the authority section with MINIMUM on either side of the TTLs, NS, opaque), TTLs {0,1,2,59,600,2^31,2^32-1,random} over three sections, cached error kinds) x clock moves (fixed steps and placements at +-2 s around the entry's smallest TTL in 250 ms steps) x sweeps, driven through the cache's own functions in handle_query order under tokio's paused clock; oracle: reference cache model; non-trivial = near-miss lookup, hit within 1 s of expiry, or hit on a reply with >=2 distinct TTLs in >=2 sections");
+            ctx.rule("cache-model: generated query sequences (keys with near misses: label/type/DO/CD/case/printed-alike framing (a dot inside a label against a label boundary, an octet against its backslash-decimal spelling); lookups are unconstrained while another spelling of the name in letter case is resolved; replies with 0..12 records (address records, SOA in the authority section with MINIMUM on either side of the TTLs, NS, opaque), TTLs {0,1,2,59,600,2^31,2^32-1,random} over three sections, cached error kinds) x clock moves (fixed steps from 250 ms to ten minutes, and 2^24+1 s .. 2e9 s against TTLs of months and years; placements at +-2 s around the entry's smallest TTL in 250 ms steps) x sweeps, driven through the cache's own functions in handle_query order under tokio's paused clock; oracle: reference cache model; non-trivial = near-miss lookup, hit within 1 s of expiry, or hit on a reply with >=2 distinct TTLs in >=2 sections");
             props_dnsfunc::run_c06_func(&ctx);
             if wire_ok && ctx.violations.lock().unwrap().is_empty() {
                 ctx.rule("wire-cache (then: two clients ask the same question at once while the upstream answers only the first transmission it sees, TTL 1..2 s; the client whose query fails 6..20 s later must not be given that answer): 40 (thorough 200) names with 1..5 records of TTL 1..4 s over the three sections through the real erbium-dns; right after the first resolution four near-miss queries (other type, DO set, CD set, class CH) must each reach the upstream; the exact query is repeated at +0.4..+5.4 s: answered from cache (upstream counter still) only within minTTL (+1 s clock slack), TTLs aged and never above the original");
